@@ -236,9 +236,31 @@ def counted_loop(root, lp, vid):
     elif inc is None or not _mods(inc, vid):
         # increment inside the body: it must run on every iteration, i.e. carry no guard inside the body
         from .. import norm
-        g = norm.guards(body, mods[0])
-        if g:
-            problems.append("the counter increment is conditional")
+
+        def leaves(stmts):
+            """the statement list leaves the loop (return / break) on every path"""
+            for s_ in stmts:
+                k_ = s_.get("k")
+                if k_ in ("ReturnStmt", "BreakStmt"):
+                    return True
+                if k_ == "IfStmt":
+                    _p, _c, t_, e_ = norm._if_parts(s_)
+                    if e_ is not None and leaves(norm._stmts(t_)) and leaves(norm._stmts(e_)):
+                        return True
+                if k_ == "CompoundStmt" and leaves(norm._stmts(s_)):
+                    return True
+            return False
+        for c_, pol, st_ in norm.guards(body, mods[0], stmts=True) or ():
+            # a guard whose other side leaves the loop does not make the increment conditional for the iterations that go on
+            okg = False
+            if st_ is not None and st_.get("k") == "IfStmt":
+                _p, _c, t_, e_ = norm._if_parts(st_)
+                inside_then = t_ is not None and any(x is mods[0] for x in cir.walk(t_))
+                other = e_ if inside_then else t_
+                okg = other is not None and leaves(norm._stmts(other))
+            if not okg:
+                problems.append("the counter increment is conditional")
+                break
     return {"start": start, "bound": bound, "problems": problems, "body": body, "inc_node": mods[0] if mods else None}
 
 
